@@ -309,11 +309,13 @@ CLAIMED = {
             'silently returns a non-principal value (math.cbrt); each real/complex pair is the same '
             'function; every FPContext slot is bound to the like-named function; mpf/mpc/convert are '
             'float/complex; no raw mp value escapes; acos/asin do not use bare cmath on the branch cut '
-            '(found and repaired: fp.acos(2) was the conjugate of mp.acos(2)).  Numerical agreement '
-            'with mp to 2^-48 is not decided.',
+            '(found and repaired: fp.acos(2) was the conjugate of mp.acos(2)), and sqrt/log/acosh/cbrt/power '
+            'normalise a negative-zero imaginary part on their cuts (F-R6, repaired); amplification without guard '
+            'digits is listed (F-R8, eight known findings); on the mp side every inverse function that takes '
+            'log(1 + t) raises its precision with the magnitude of t (F-R12, repaired: mp was wrong by up to 100 %% '
+            'for small complex arguments).  Numerical agreement with mp to 2^-48 in general is not decided.',
             'Trusts the behaviour classes of the math module functions (tables in sa/checks/c43.py).  '
-            'Seeded change C43-1 (wrong 2^52 threshold of a large-argument shortcut) is a value fact and '
-            'is not detected.',
+            'Value facts are checked only where a formula can be evaluated from the source (F-R9).',
             'DESIGN.md section 4 (C43)'),
     'C38': ('X-context-isolation',
             'static analysis: sharing/escape rules over the context constructors (fresh precision cell and '
